@@ -1,3 +1,4 @@
+import FluteModel.Lemmas.ObjRecvPanicFree
 import FluteModel.Lemmas.ObjRecvProto
 import FluteModel.Lemmas.ObjRecvWritten
 /-
@@ -22,7 +23,7 @@ open Flute Flute.FecDec Flute.ObjRecv Flute.Spec Flute.Spec.WriterProto
 /-- The calls seen by the writer form a word of the protocol automaton
     `Idle -open ok-> Opened -write*-> Opened -complete|error|interrupted-> Done`, `Idle -open err-> Failed -error-> Done`,
     nothing after `Done` - before the object is dropped and after it. -/
-theorem writer_trace_in_language (P : Params) (toi maxSize : Nat) (ops : List Op) (st' : St)
+theorem OfRun.writer_trace_in_language (P : Params) (toi maxSize : Nat) (ops : List Op) (st' : St)
     (h : run P (St.new toi maxSize) ops = .ok st') :
     Accepts st'.wtrace ∧ Accepts (drop st').wtrace := by
   have hi := inv_run P _ ops (inv_new toi maxSize) h
@@ -33,7 +34,7 @@ theorem writer_trace_in_language (P : Params) (toi maxSize : Nat) (ops : List Op
   exact ⟨by simp [Accepts, St.wtrace, h1], by simp [Accepts, St.wtrace, h2]⟩
 
 /-- `open` is the first call the writer sees, and it sees it at most once. -/
-theorem open_first_and_once (P : Params) (toi maxSize : Nat) (ops : List Op) (st' : St)
+theorem OfRun.open_first_and_once (P : Params) (toi maxSize : Nat) (ops : List Op) (st' : St)
     (h : run P (St.new toi maxSize) ops = .ok st') :
     (∀ e r, (drop st').wtrace = e :: r → (e = .openOk ∨ e = .openErr) ∧ r.filter Ev.isOpen = []) := by
   have hacc := (writer_trace_in_language P toi maxSize ops st' h).2
@@ -56,7 +57,7 @@ theorem open_first_and_once (P : Params) (toi maxSize : Nat) (ops : List Op) (st
 
 /-- At most one of complete / error / interrupted is ever called on a writer, and nothing is called after it
     (in particular never both `complete` and a failure). -/
-theorem terminal_at_most_once (P : Params) (toi maxSize : Nat) (ops : List Op) (st' : St)
+theorem OfRun.terminal_at_most_once (P : Params) (toi maxSize : Nat) (ops : List Op) (st' : St)
     (h : run P (St.new toi maxSize) ops = .ok st') :
     ((drop st').wtrace.filter Ev.isTerminal).length ≤ 1 ∧
     (∀ a e b, (drop st').wtrace = a ++ e :: b → e.isTerminal = true → b = []) := by
@@ -73,7 +74,7 @@ theorem terminal_at_most_once (P : Params) (toi maxSize : Nat) (ops : List Op) (
 /-- By the time the ObjectReceiver is dropped (explicitly by `check_object_state`, by a time-out, or with the Receiver),
     a writer that was created has received its terminal call: the trace is empty (no writer was ever opened)
     or ends in `Done`. -/
-theorem terminal_by_drop (P : Params) (toi maxSize : Nat) (ops : List Op) (st' : St)
+theorem OfRun.terminal_by_drop (P : Params) (toi maxSize : Nat) (ops : List Op) (st' : St)
     (h : run P (St.new toi maxSize) ops = .ok st') :
     Closed (drop st').wtrace := by
   have hi := inv_run P _ ops (inv_new toi maxSize) h
@@ -103,7 +104,7 @@ theorem terminal_by_drop (P : Params) (toi maxSize : Nat) (ops : List Op) (st' :
     `s.tl`, `s.cenc`, `s.md5`, `s.cl` are the values the writer was given in `new_object_writer(meta)`.
     What is NOT guaranteed: for cenc ≠ null without Content-Length and without MD5 nothing ties the decoded bytes to an
     announced size; a zero-length transfer is completed without MD5 / Content-Length comparison (finding D33). -/
-theorem complete_only_when_all_written (P : Params) (toi maxSize : Nat) (ops : List Op) (st' : St)
+theorem OfRun.complete_only_when_all_written (P : Params) (toi maxSize : Nat) (ops : List Op) (st' : St)
     (h : run P (St.new toi maxSize) ops = .ok st') (hc : ¬ noComplete (drop st').out) :
     ((drop st').cenc = some .null → ∃ T, (drop st').tl = some T ∧ (drop st').written.length = T) ∧
     (∀ m, (drop st').md5 = some m → (drop st').md5Check = true → (drop st').tl ≠ some 0 →
@@ -150,5 +151,47 @@ example :
     (match run (P0 true) (St.new 5 1000) [.attach 1 (some e0), .push p0] with
      | .ok st => ((drop st).wtrace, (drop st).written, (drop st).tl)
      | .error _ => ([], [], none)) = ([.openOk, .write true, .complete], [1, 2, 3], some 3) := by decide
+
+/-! ### The theorems, with NO hypothesis on the outcome of the run
+
+`OfRun.*` above are stated for a run that returned (`run = .ok st'`).  `C04.Obj.run_total` shows that every history returns - no Rust
+panic, no hang - under input-side assumptions only (`Feasible`: the decompressor contract `DzOK`, `max_size_allocated < 2^63`, the
+parser ranges `WfOp`: transfer length < 2^48, E < 2^16).  Hence, for EVERY such history the run returns some `st'` and the property
+holds for it; nothing can be violated "inside an op that panics", because no op panics. -/
+
+theorem writer_trace_in_language (P : Params) (toi maxSize : Nat) (ops : List Op)
+    (F : Feasible P maxSize ops) :
+    ∃ st', run P (St.new toi maxSize) ops = .ok st' ∧
+     ((Accepts st'.wtrace ∧ Accepts (drop st').wtrace)) :=
+  F.elim toi (fun st' h  => OfRun.writer_trace_in_language P toi maxSize ops st' h)
+
+theorem open_first_and_once (P : Params) (toi maxSize : Nat) (ops : List Op)
+    (F : Feasible P maxSize ops) :
+    ∃ st', run P (St.new toi maxSize) ops = .ok st' ∧
+     (((∀ e r, (drop st').wtrace = e :: r → (e = .openOk ∨ e = .openErr) ∧ r.filter Ev.isOpen = []))) :=
+  F.elim toi (fun st' h  => OfRun.open_first_and_once P toi maxSize ops st' h)
+
+theorem terminal_at_most_once (P : Params) (toi maxSize : Nat) (ops : List Op)
+    (F : Feasible P maxSize ops) :
+    ∃ st', run P (St.new toi maxSize) ops = .ok st' ∧
+     ((((drop st').wtrace.filter Ev.isTerminal).length ≤ 1 ∧
+    (∀ a e b, (drop st').wtrace = a ++ e :: b → e.isTerminal = true → b = []))) :=
+  F.elim toi (fun st' h  => OfRun.terminal_at_most_once P toi maxSize ops st' h)
+
+theorem terminal_by_drop (P : Params) (toi maxSize : Nat) (ops : List Op)
+    (F : Feasible P maxSize ops) :
+    ∃ st', run P (St.new toi maxSize) ops = .ok st' ∧
+     ((Closed (drop st').wtrace)) :=
+  F.elim toi (fun st' h  => OfRun.terminal_by_drop P toi maxSize ops st' h)
+
+theorem complete_only_when_all_written (P : Params) (toi maxSize : Nat) (ops : List Op)
+    (F : Feasible P maxSize ops) :
+    ∃ st', run P (St.new toi maxSize) ops = .ok st' ∧
+     ((¬ noComplete (drop st').out) →
+      (((drop st').cenc = some .null → ∃ T, (drop st').tl = some T ∧ (drop st').written.length = T) ∧
+    (∀ m, (drop st').md5 = some m → (drop st').md5Check = true → (drop st').tl ≠ some 0 →
+        P.md5 (drop st').written = m) ∧
+    (∀ n, (drop st').cl = some n → (drop st').tl ≠ some 0 → (drop st').written.length = n))) :=
+  F.elim toi (fun st' h hc => OfRun.complete_only_when_all_written P toi maxSize ops st' h hc)
 
 end Flute.Props.C09
